@@ -176,6 +176,7 @@ type RunOut struct {
 	NoRep       bool
 	Unannounced int
 	Prefetch    bool // some Read asked for more than one word: reads cannot be attributed to draws
+	CfgTouched  bool // the process-wide limits (MaxTrials, MaxFailRate) differed from the configured ones at a draw or after the call (Process!LimitsAreTheCallers)
 }
 
 // Run executes body once along plan (indices for the first draws; further
@@ -195,7 +196,11 @@ func (e *Enum) Run(plan []uint32, body func()) (out RunOut) {
 	}
 	k := 0
 	prod := 1.0
+	cfgMT, cfgFR := spg.MaxTrials, spg.MaxFailRate
 	spg.VerifSetDrawHook(func(n uint32) {
+		if spg.MaxTrials != cfgMT || spg.MaxFailRate != cfgFR {
+			out.CfgTouched = true
+		}
 		if e.inCalib {
 			return
 		}
@@ -248,6 +253,10 @@ func (e *Enum) Run(plan []uint32, body func()) (out RunOut) {
 	}()
 	randReaderSwap(old)
 	spg.VerifSetDrawHook(nil)
+	if spg.MaxTrials != cfgMT || spg.MaxFailRate != cfgFR {
+		out.CfgTouched = true
+		spg.MaxTrials, spg.MaxFailRate = cfgMT, cfgFR // what the caller configured, for the runs that follow
+	}
 	out.Tape = t
 	out.Unannounced = t.Unannounced
 	out.Prefetch = t.MaxReq > 4
